@@ -16,14 +16,25 @@
 (* implementation's choice (a parameter of the actions, bound to the         *)
 (* observed ID in traces, to lastId+1 in the bounded model).                 *)
 (*                                                                         *)
+(* Subscribers: besides the permanent by-name and wildcard subscribers at     *)
+(* session and region level, further subscribers of the same message name    *)
+(* may be registered at either level at any time, after the permanent one:    *)
+(* permanent ones, and three self-removing kinds (one_shot subscription,       *)
+(* handler returning True, MessageHandler.wait_for()).  Every live subscriber  *)
+(* receives every new matching message exactly once WHATEVER the others do     *)
+(* during the dispatch; a self-removing one receives exactly the first         *)
+(* matching message after its registration.  (Called/IterateLive transcribe    *)
+(* the dispatch loop of Event.notify; DispatchReachesAll is the law.)          *)
+(*                                                                         *)
 (* Layers: pend/seen are the mechanism (unacked table with tries/age,        *)
 (* dedupe memory); rR..dU, ackedSince, xmits, relIssued, ids are ghost       *)
 (* history variables in which the invariants restate the property.           *)
 (***************************************************************************)
 EXTENDS Integers, Sequences, FiniteSets, TLC
 
-CONSTANTS Budget,   \* transmissions allowed for one reliable send (code: tries_left = 10)
-          Every     \* resend period in clock units (code: resend_every = 3.0 s; unit = ms)
+CONSTANTS Budget,      \* transmissions allowed for one reliable send (code: tries_left = 10)
+          Every,       \* resend period in clock units (code: resend_every = 3.0 s; unit = ms)
+          IterateLive  \* FALSE: dispatch walks a snapshot of the subscriber list (the code); TRUE: the live list
 
 VARIABLES seen,        \* inbound reliable packet IDs received at least once
           rR, aR, dR,  \* ghost, per inbound reliable pid: receipts, acks emitted, deliveries per subscriber
@@ -36,25 +47,51 @@ VARIABLES seen,        \* inbound reliable packet IDs received at least once
           xmits,       \* ghost: set of <<id, number of transmissions>>
           ids,         \* ghost: sequence of every packet ID issued, in order of issue
           lastId,      \* highest packet ID issued (-1: none)
+          subs,        \* per level: the subscribers registered after the permanent one, <<[k |-> kind, live |-> BOOLEAN]..>>
           out          \* observable output of the last step
 
-vars == <<seen, rR, aR, dR, rU, dU, pend, done, failed, relIssued, ackedSince, xmits, ids, lastId, out>>
-core == <<seen, rR, aR, dR, rU, dU, pend, done, failed, relIssued, ackedSince, xmits, ids, lastId>>
+vars == <<seen, rR, aR, dR, rU, dU, pend, done, failed, relIssued, ackedSince, xmits, ids, lastId, subs, out>>
+core == <<seen, rR, aR, dR, rU, dU, pend, done, failed, relIssued, ackedSince, xmits, ids, lastId, subs>>
 
 Get(f, k) == IF k \in DOMAIN f THEN f[k] ELSE 0
 Inc(f, k, n) == [x \in DOMAIN f \cup {k} |-> IF x = k THEN Get(f, k) + n ELSE f[x]]
 PendIds == {e.id : e \in pend}
 Xm(id) == (CHOOSE x \in xmits : x[1] = id)[2]
-NoOut == [acks |-> <<>>, deliver |-> FALSE, tx |-> {}, completed |-> {}, failed |-> {}]
+Levels == {"sess", "reg"}
+Kinds == {"perm", "once", "retTrue", "waitfor"}      \* all but "perm" remove themselves when they are called
+NoCalls == [l \in Levels |-> [i \in 1..Len(subs[l]) |-> 0]]
+NoOut == [acks |-> <<>>, deliver |-> FALSE, tx |-> {}, completed |-> {}, failed |-> {}, calls |-> NoCalls]
+
+\* --- the dispatch loop (Event.notify) over the live extra subscribers of one level ---
+\* positions (in subs[l]) of the subscribers that are called when one message is dispatched
+LivePos(ss) == SelectSeq([i \in 1..Len(ss) |-> i], LAMBDA i : ss[i].live)
+RemoveAt(q, i) == SubSeq(q, 1, i - 1) \o SubSeq(q, i + 1, Len(q))
+RECURSIVE WalkLive(_, _, _, _)
+WalkLive(ss, q, i, called) ==           \* q: live list (positions), mutated while it is walked by index
+    IF i > Len(q) THEN called
+    ELSE IF ss[q[i]].k # "perm" THEN WalkLive(ss, RemoveAt(q, i), i + 1, called \cup {q[i]})
+    ELSE WalkLive(ss, q, i + 1, called \cup {q[i]})
+Called(ss) == IF IterateLive THEN WalkLive(ss, LivePos(ss), 1, {})
+              ELSE {i \in 1..Len(ss) : ss[i].live}          \* a snapshot is walked: removals do not disturb it
+\* what the property demands: every live subscriber, once
+MustCall(ss) == {i \in 1..Len(ss) : ss[i].live}
+Dispatch(deliver, match) ==
+    IF deliver /\ match
+    THEN /\ subs' = [l \in Levels |-> [i \in 1..Len(subs[l]) |->
+                        IF subs[l][i].live /\ subs[l][i].k # "perm" THEN [subs[l][i] EXCEPT !.live = FALSE] ELSE subs[l][i]]]
+    ELSE UNCHANGED subs
+CallsOf(deliver, match) == [l \in Levels |-> [i \in 1..Len(subs[l]) |->
+                               IF deliver /\ match /\ i \in MustCall(subs[l]) THEN 1 ELSE 0]]
 
 Init == /\ seen = {} /\ rR = <<>> /\ aR = <<>> /\ dR = <<>> /\ rU = <<>> /\ dU = <<>>
         /\ pend = {} /\ done = {} /\ failed = {} /\ relIssued = {} /\ ackedSince = {} /\ xmits = {}
-        /\ ids = <<>> /\ lastId = -1 /\ out = NoOut
+        /\ ids = <<>> /\ lastId = -1 /\ subs = [l \in Levels |-> <<>>] /\ out = NoOut
 
 (* A datagram from the peer: packet ID p, reliable flag rel, carrying the set `acks` of      *)
 (* acknowledged IDs (in whichever form).  aid = the packet ID the endpoint gives to the     *)
-(* acknowledgement it emits (only meaningful when rel).                                     *)
-Recv(p, rel, acks, aid) ==
+(* acknowledgement it emits (only meaningful when rel).  match = the message has the name    *)
+(* the extra subscribers subscribed to (the permanent by-name ones take both names used).    *)
+Recv(p, rel, acks, aid, match) ==
     LET hit == acks \cap PendIds IN
     /\ pend' = {e \in pend : e.id \notin hit}
     /\ done' = done \cup hit
@@ -67,10 +104,19 @@ Recv(p, rel, acks, aid) ==
             /\ rR' = Inc(rR, p, 1) /\ aR' = Inc(aR, p, 1)
             /\ dR' = Inc(dR, p, IF p \in seen THEN 0 ELSE 1)
             /\ UNCHANGED <<rU, dU>>
-            /\ out' = [acks |-> <<p>>, deliver |-> p \notin seen, tx |-> {}, completed |-> hit, failed |-> {}]
+            /\ Dispatch(p \notin seen, match)
+            /\ out' = [acks |-> <<p>>, deliver |-> p \notin seen, tx |-> {}, completed |-> hit, failed |-> {},
+                       calls |-> CallsOf(p \notin seen, match)]
        ELSE /\ rU' = Inc(rU, p, 1) /\ dU' = Inc(dU, p, 1)
             /\ UNCHANGED <<seen, rR, aR, dR, lastId, ids>>
-            /\ out' = [acks |-> <<>>, deliver |-> TRUE, tx |-> {}, completed |-> hit, failed |-> {}]
+            /\ Dispatch(TRUE, match)
+            /\ out' = [acks |-> <<>>, deliver |-> TRUE, tx |-> {}, completed |-> hit, failed |-> {}, calls |-> CallsOf(TRUE, match)]
+
+(* A further subscriber of kind k is registered at level l (after everything registered there before). *)
+Subscribe(l, k) ==
+    /\ subs' = [subs EXCEPT ![l] = Append(@, [k |-> k, live |-> TRUE])]
+    /\ UNCHANGED <<seen, rR, aR, dR, rU, dU, pend, done, failed, relIssued, ackedSince, xmits, ids, lastId>>
+    /\ out' = [NoOut EXCEPT !.calls = [ll \in Levels |-> [i \in 1..Len(subs'[ll]) |-> 0]]]
 
 (* A datagram from an address that is not the peer's: whatever it carries, nothing happens. *)
 Stray == /\ UNCHANGED core /\ out' = NoOut
@@ -82,14 +128,14 @@ SendRel(id) ==
     /\ pend' = pend \cup {[id |-> id, tries |-> Budget, age |-> 0]}
     /\ relIssued' = relIssued \cup {id}
     /\ xmits' = xmits \cup {<<id, 1>>}
-    /\ UNCHANGED <<seen, rR, aR, dR, rU, dU, done, failed, ackedSince>>
+    /\ UNCHANGED <<seen, rR, aR, dR, rU, dU, done, failed, ackedSince, subs>>
     /\ out' = [NoOut EXCEPT !.tx = {[id |-> id, rel |-> TRUE, resent |-> FALSE]}]
 
 (* send() of an unreliable message: takes an ID, nothing to track.                          *)
 SendUnrel(id) ==
     /\ id > lastId
     /\ lastId' = id /\ ids' = Append(ids, id)
-    /\ UNCHANGED <<seen, rR, aR, dR, rU, dU, pend, done, failed, relIssued, ackedSince, xmits>>
+    /\ UNCHANGED <<seen, rR, aR, dR, rU, dU, pend, done, failed, relIssued, ackedSince, xmits, subs>>
     /\ out' = [NoOut EXCEPT !.tx = {[id |-> id, rel |-> FALSE, resent |-> FALSE]}]
 
 (* The clock advances by d and the resend pass runs: every pending send whose last          *)
@@ -104,7 +150,7 @@ Tick(d) ==
                \cup {[id |-> e.id, tries |-> e.tries - 1, age |-> 0] : e \in again}
     /\ failed' = failed \cup {e.id : e \in dead}
     /\ xmits' = {IF x[1] \in {e.id : e \in again} THEN <<x[1], x[2] + 1>> ELSE x : x \in xmits}
-    /\ UNCHANGED <<seen, rR, aR, dR, rU, dU, done, relIssued, ackedSince, ids, lastId>>
+    /\ UNCHANGED <<seen, rR, aR, dR, rU, dU, done, relIssued, ackedSince, ids, lastId, subs>>
     /\ out' = [NoOut EXCEPT !.tx = {[id |-> e.id, rel |-> TRUE, resent |-> TRUE] : e \in again},
                             !.failed = {e.id : e \in dead}]
 
@@ -119,6 +165,13 @@ DispatchAtMostOnce == \A p \in DOMAIN rR : dR[p] <= 1
 FirstCopyDispatched == \A p \in DOMAIN rR : rR[p] >= 1 => dR[p] = 1
 \* unreliable packets are always delivered
 UnreliableAlwaysDelivered == \A p \in DOMAIN rU : dU[p] = rU[p]
+\* the dispatch loop reaches every live subscriber whatever the others do while it runs
+DispatchReachesAll == \A l \in Levels : Called(subs[l]) = MustCall(subs[l])
+\* a self-removing subscriber is called at most once: once dead it stays dead, and only a call kills it
+OneShotOnce == [][\A l \in Levels : \A i \in 1..Len(subs[l]) :
+                    /\ (~subs[l][i].live => ~subs'[l][i].live /\ out'.calls[l][i] = 0)
+                    /\ (subs[l][i].live /\ subs[l][i].k # "perm" => (subs'[l][i].live <=> out'.calls[l][i] = 0))
+                    /\ (subs[l][i].k = "perm" => subs'[l][i].live)]_vars
 
 \* a reliable send is in exactly one of the three states
 Partition == /\ PendIds \cap done = {} /\ PendIds \cap failed = {} /\ done \cap failed = {}
